@@ -29,7 +29,7 @@ SPEC = os.path.join(vlib.SPEC, "gateway")
 VERDICT_INVS = ("AuthHolds", "VpcHolds", "ScopeHolds", "ResumeHolds", "ResumeScopeHolds")
 OBSERVATION_INV = "RevocationEffective"
 CHUNK = 8000
-QUICK_SAMPLE = 6000      # cases of the thorough universe replayed in the quick tier (seeded sample)
+QUICK_SAMPLE = 3000      # cases of the thorough universe replayed in the quick tier (seeded sample)
 SESSIONS = {"quick": (128, 24), "thorough": (512, 48)}     # free-running: (sessions, requests per session)
 BURSTS = {"quick": (32, 40), "thorough": (64, 80)}         # stream storm: (burst sessions, rounds); one round = all at once
 
